@@ -62,6 +62,19 @@ Theorem C05_mentioned_key_is_recursive_merge : forall rec p fs xs chs fo xo cho 
 Proof. exact comp_merge_hit. Qed.
 Print Assumptions C05_mentioned_key_is_recursive_merge.
 
+(* "the merged value at any path is unaffected by what sibling paths contain or how keys elsewhere are named": two merges of mappings
+   that agree on what they hold at k - whatever their other keys (names and contents), their own flags, their position in the tree - leave
+   Sim nodes at k *)
+Theorem C05_sibling_independent : forall fuel p p' fs xs chs fo xo cho r w fs' xs' chs' fo' xo' cho' r' w' k v c0,
+  delete (Comp CDict fo xo cho) = false -> NoDup (map fst cho) -> delete (Comp CDict fo' xo' cho') = false -> NoDup (map fst cho') ->
+  on_merge [] (S fuel) p (Comp CDict fs xs chs) (Comp CDict fo xo cho) = Ok (r, w) ->
+  on_merge [] (S fuel) p' (Comp CDict fs' xs' chs') (Comp CDict fo' xo' cho') = Ok (r', w') ->
+  aget k chs = Some c0 -> aget k cho = Some v -> aget k chs' = Some c0 -> aget k cho' = Some v ->
+  is_comp c0 = true -> explicit_delete v = false ->
+  exists c c', get_child r k = Some c /\ get_child r' k = Some c' /\ Sim c c'.
+Proof. exact sibling_independent. Qed.
+Print Assumptions C05_sibling_independent.
+
 (* non-vacuity: a !force mapping and a !weak scalar beside the untouched path; the newer stage overrides a sibling two levels down *)
 Example C05_frame_example :
   let L f v := Leaf LScalar f (SInt v) in
